@@ -387,6 +387,12 @@ func C10(c *core.Ctx) {
 			replay := map[string]string{"entry": e.name, "path": e.path, "bytes": hx(in.b), "observed": trunc(res.obs, 300), "kind": in.kind}
 			switch res.obs {
 			case "panic", "fatal-panic", "crash":
+				if res.obs == "crash" && oversizedCount(in.b) {
+					// the child died without a Go panic message (killed at the memory limit) while
+					// allocating for a hostile declared count
+					c.Violation("alloc", "c10-alloc-declared-size", fmt.Sprintf("%s (%s): the process was killed while allocating for a declared count on a %d-byte input", e.name, e.path, len(in.b)), replay)
+					continue
+				}
 				c.Violation("panic", "c10-panic:"+e.name, e.name+" panicked on a "+in.kind+" input", replay)
 				continue
 			case "hang":
